@@ -9,6 +9,14 @@ the real stream, then the family's own model on the settled section — Model/In
 driver of the shared `load` family), return the Spec-level decoding of the bytes of `img` in the section's
 file range (`C02.secFileBytes img i` = `slice img sh_offset sh_size`), for ALL entry indices.
 
+  §1  loaded_section_ready                 every section of the loaded object is ready for the accessors
+  §2a strings_reports_spec (+ cstrAt_eq_strAt)      §2b symbols_reports_spec        §2c reloc_reports_spec
+  §2d dynamic_reports_spec (count + entries)        §2e notes_reports_spec, segment_notes_reports_spec
+  §2f array_reports_spec                            §2g versym_reports_spec (host byte order: finding F4)
+  §2h tq_reports_spec                      relocation / array / versym through C18's `TQ.runQuery`
+  §3  prefixLoaded_of_load, prefix_secResident, prefix_strings_sound, prefix_symbols_sound   (C17: truncated files)
+Each theorem has explicit decidable hypotheses and an `example` on the 744-byte image `exImg`.
+
 Everything is stated for an object in the state `LoadedFrom img o` (Lemmas/LoadedTables.lean): what `load` of
 a well-formed image yields, eagerly or lazily, from either stream kind (`LoadedTables.of_load`), after ANY
 number of earlier table queries — every theorem returns `LoadedFrom` for the object it leaves, so the
@@ -644,6 +652,129 @@ example (k : StreamKind) (isLazy : Bool) :
   exact ⟨o1, b1, g1, g2⟩
 example : Spec.tableEntry (encOf exImg) 2 (secFileBytes exImg 8) 2 = some 0x8002 ∧
     Spec.tableEntry (encOf exImg) 2 (secFileBytes exImg 8) 3 = none := by decide +kernel
+
+/-! ### 2h. the same read-outs through C18's query model `TQ.runQuery`
+
+`TQ.runQuery` (Model/TableQuery.lean; what the `load` family's driver executes for relocation / array / versym
+queries on a loaded file) wraps the accessor families' functions in the null-data guards of the C18 fixes.  On a
+section that `secResident` hands out for a file-occupying type the guards are false, so the answers are those of
+§2c, 2f, 2g. -/
+
+open Reloc in
+theorem tq_relGet_eq (c : Cls) (kind : Spec.RelKind) (enc : Enc) (b b' : SecBuf) (r : Option Reloc.Entry)
+    (hR : C11.RelocSec c kind b) (hdata : (secData b).isNone = false) (k : BitVec 64)
+    (h : Reloc.getEntry enc b k = .ok (b', r)) : TQ.relGet enc b k = .ok r := by
+  by_cases hidx : k.toNat < b.size.toNat / b.entSize.toNat
+  · rw [C11.getEntry_dispatch c kind enc b hR.cls hR.stype k hidx] at h
+    have hn : reloc_get_idx_oob k (entriesNumV b) = false := by
+      rw [get_idx_oob, entriesNumV_toNat]; simp; omega
+    have hsm : (opsOf c kind).entsizeSmall b.entSize = false := by
+      have := ((opsOk c kind).entsizeSmall b.entSize)
+      cases hx : (opsOf c kind).entsizeSmall b.entSize
+      · rfl
+      · have := this.mp hx; rw [(opsOk c kind).size] at this; have := hR.entSize; omega
+    have hgen : ∀ nodata : Bool → Bool, (∀ x, nodata x = x) →
+        TQ.relGetGeneric (opsOf c kind) nodata enc b k = .ok r := by
+      intro nodata hnd
+      unfold TQ.relGetGeneric
+      simp only [hsm, hnd, hdata, Bool.false_eq_true, if_false, h]; rfl
+    unfold TQ.relGet
+    simp only [entriesNum_ok, hn, Bool.false_eq_true, if_false, hR.cls, hR.stype]
+    cases c <;> cases kind <;>
+      simp only [is32_c32.1, is32_c64.1, shtOf, reloc_get_is_rel32, reloc_get_is_rela32, reloc_get_is_rel64,
+        reloc_get_is_rela64, sht_rel_ne_rela, sht_rel_ne_rela.symm, beq_self_eq_true, if_true, Bool.false_eq_true,
+        if_false, beq_eq_false_iff_ne.mpr sht_rel_ne_rela, beq_eq_false_iff_ne.mpr sht_rel_ne_rela.symm]
+    · exact hgen _ (fun _ => rfl)
+    · exact hgen _ (fun _ => rfl)
+    · exact hgen _ (fun _ => rfl)
+    · exact hgen _ (fun _ => rfl)
+  · have hn : reloc_get_idx_oob k (entriesNumV b) = true := by
+      rw [get_idx_oob, entriesNumV_toNat]; simpa using Nat.le_of_not_lt hidx
+    rw [C11.get_invalid enc b k (Nat.le_of_not_lt hidx)] at h
+    simp only [Except.ok.injEq, Prod.mk.injEq] at h
+    unfold TQ.relGet
+    simp only [entriesNum_ok, hn, if_true, ← h.2]; rfl
+
+/-- **reloc / array / versym through `TQ.runQuery`** : the table queries of C18's model on the loaded object
+    return the specification's values of §2c, 2f, 2g (same hypotheses) -/
+theorem tq_reports_spec (img : Bytes) (hwf : WellFormedImage img) (o : Obj) (hL : LoadedFrom img o) (i : Nat)
+    (hi : i < eh img "e_shnum") (hocc : occupiesFile (sh img i "sh_type") = true) :
+    (∀ (kind : Spec.RelKind) (k : BitVec 64), sh img i "sh_type" = relShType kind →
+      Spec.entSize (clsOf img) kind ≤ sh img i "sh_entsize" →
+      ∃ o1 r, TQ.runQuery o (.relGet i k) = .ok (o1, .rel r) ∧ LoadedFrom img o1 ∧
+        r.map Reloc.Entry.toSpec = specReloc img i kind k.toNat) ∧
+    (∀ (w : Arr.W) (k : BitVec 64), sh img i "sh_size" % w.bytes = 0 →
+      ∃ o1, TQ.runQuery o (.arrGet w i k) =
+        .ok (o1, .addr ((Spec.tableEntry (encOf img) w.bytes (secFileBytes img i) k.toNat).map (BitVec.ofNat 64))) ∧
+        LoadedFrom img o1) ∧
+    (∀ k : BitVec 32, sh img i "sh_size" % 2 = 0 → sh img i "sh_size" / 2 < 4294967296 → encOf img = C14.hostEnc →
+      ∃ o1, TQ.runQuery o (.versymGet i k) =
+        .ok (o1, .half ((Spec.tableEntry (encOf img) 2 (secFileBytes img i) k.toNat).map (BitVec.ofNat 16))) ∧
+        LoadedFrom img o1) := by
+  -- the section every one of the three queries settles first
+  obtain ⟨o1, b1, h1, hL1, hR1, _⟩ := secResident_ready img hwf o hL i hi
+  have hs : TQ.settle o i = some (o1, b1) := h1
+  have hdata : (secData b1).isNone = false := by
+    unfold secData; rw [hR1.getData]
+    have := (hR1.resident hocc).2
+    cases hd : b1.data <;> simp_all
+  refine ⟨?_, ?_, ?_⟩
+  · intro kind k hty hent
+    obtain ⟨o1', b1', r, g1, _, g2, g3⟩ := reloc_reports_spec img hwf o hL i hi kind hty hent k
+    rw [h1] at g1
+    simp only [Option.some.injEq, Prod.mk.injEq] at g1
+    obtain ⟨rfl, rfl⟩ := g1
+    obtain ⟨hinv, _⟩ := hR1.inv hocc
+    have hRS : C11.RelocSec (clsOf img) kind b1 :=
+      ⟨hinv, hR1.cls, by
+        apply (stype_of_toNat _ _ (hR1.stype.trans hty)).trans
+        cases kind <;> rfl, by rw [hR1.entSize]; exact hent⟩
+    have := tq_relGet_eq (clsOf img) kind (encOf img) b1 b1 r hRS hdata k g2
+    refine ⟨o1, r, ?_, hL1, g3⟩
+    simp only [TQ.runQuery, hs, hL.enc, this, TQ.liftQ]; rfl
+  · intro w k hwhole
+    obtain ⟨o1', b1', g1, _, g2⟩ := array_reports_spec img hwf o hL i hi hocc w hwhole k
+    rw [h1] at g1
+    simp only [Option.some.injEq, Prod.mk.injEq] at g1
+    obtain ⟨rfl, rfl⟩ := g1
+    refine ⟨o1, ?_, hL1⟩
+    have hq : TQ.arrGet w (encOf img) b1 k =
+        .ok ((Spec.tableEntry (encOf img) w.bytes (secFileBytes img i) k.toNat).map (BitVec.ofNat 64)) := by
+      unfold TQ.arrGet
+      cases w
+      · by_cases hg : arr32_get_guard k (Arr.entriesNum .w4 b1) = true
+        · simp only [hg, if_true]
+          rw [← g2]; simp only [Arr.getEntry, hg, if_true]
+        · simp only [hg, Bool.false_eq_true, if_false, tq_arr32_nodata, hdata, g2]
+      · by_cases hg : arr64_get_guard k (Arr.entriesNum .w8 b1) = true
+        · simp only [hg, if_true]
+          rw [← g2]; simp only [Arr.getEntry, hg, if_true]
+        · simp only [hg, Bool.false_eq_true, if_false, tq_arr64_nodata, hdata, g2]
+    simp only [TQ.runQuery, hs, hL.enc, hq, TQ.liftQ]; rfl
+  · intro k hwhole h32 hhost
+    obtain ⟨o1', b1', g1, _, g2⟩ := versym_reports_spec img hwf o hL i hi hocc hwhole h32 hhost k
+    rw [h1] at g1
+    simp only [Option.some.injEq, Prod.mk.injEq] at g1
+    obtain ⟨rfl, rfl⟩ := g1
+    refine ⟨o1, ?_, hL1⟩
+    have hq : TQ.versymGet b1 (Versym.mk b1) k =
+        .ok ((Spec.tableEntry (encOf img) 2 (secFileBytes img i) k.toNat).map (BitVec.ofNat 16)) := by
+      unfold TQ.versymGet
+      by_cases hg : vs_get_guard true k (Versym.entriesNum (Versym.mk b1)) = true
+      · simp only [hg, if_true, tq_vs_nodata, hdata, Bool.false_eq_true, if_false, g2]
+      · simp only [hg, Bool.false_eq_true, if_false]
+        rw [← g2]; simp only [Versym.getEntry, hg, Bool.false_eq_true, if_false]
+    simp only [TQ.runQuery, hs, hq, TQ.liftQ]; rfl
+
+example (k : StreamKind) (isLazy : Bool) :
+    ∃ r : LoadRes, load {} { data := exImg, kind := k } isLazy = .ok r ∧
+      ∀ idx : BitVec 64, ∃ o1 e, TQ.runQuery r.obj (.relGet 3 idx) = .ok (o1, .rel e) ∧
+        e.map Reloc.Entry.toSpec = specReloc exImg 3 .rel idx.toNat := by
+  obtain ⟨r, h1, _, h3⟩ := of_load exImg {} k isLazy rfl exImg_wf
+  refine ⟨r, h1, fun idx => ?_⟩
+  obtain ⟨o1, e, g1, _, g2⟩ := (tq_reports_spec exImg exImg_wf r.obj h3 3 (by decide +kernel) (by decide +kernel)).1
+    .rel idx (by decide +kernel) (by decide +kernel)
+  exact ⟨o1, e, g1, g2⟩
 
 /-! ### section queries do not touch the segments (so `SegsFrom` survives them) -/
 
